@@ -53,6 +53,7 @@ class World:
         self.write_files = write_files
         self.queried = None
         self.cancel_code = "OK"            # what the scheduler answers to cancel_jobs
+        self.peak_live = 0                 # the largest number of simultaneously live jobs so far
         self.via = None                    # "slurm" / "lsf": a real adapter interprets the answers
         self.via_rng = None
 
@@ -116,6 +117,7 @@ class ScriptedAdapter(ScriptAdapter):
             jid = str(k + 1)
             WORLD.job_owner[jid] = name
             WORLD.ledger[jid] = "live"
+            WORLD.peak_live = max(WORLD.peak_live, sum(1 for v in WORLD.ledger.values() if v == "live"))
             WORLD.emit(("submit", name, _kind(path), "ok", k + 1, cwd))
             return SubmissionRecord(SubmissionCode.OK, 0, jid)
         WORLD.emit(("submit", name, _kind(path), "fail", 0, cwd))
